@@ -86,6 +86,7 @@ struct sample {
 static struct sample samples[3];
 static int nsamples;
 
+static long st_real_validated, st_real_mismatch;
 static long st_exec, st_points, st_outcome[OUT_NOUT], st_infra, st_crash, st_replay_checked, st_replay_mismatch,
     st_configs_done, st_capped_configs, st_unconfirmed, st_trace_overflow;
 static int st_max_trace;
@@ -139,6 +140,7 @@ static int run_one(long cfg, const uint8_t *prefix, int plen, int verbose)
   S->loglen = 0;
   S->log[0] = 0;
   S->cfgdesc[0] = 0;
+  S->emulated_exec_used = 0;
   S->crashkey[0] = 0;
   S->child_exit_called = 0;
 
@@ -297,6 +299,20 @@ static void explore_config(long cfg)
                 cfg, (unsigned long long) h, (unsigned long long) S->obs_hash, oc, S->outcome, ntrace, S->ntrace);
       }
     }
+    /* differential validation of the emulated exec: the default schedule of every configuration once more with the real exec */
+    if (nd.len == 0 && S->emulated_exec_used && S->outcome != OUT_INFRA && !(split && g_shard != 0)) {
+      uint64_t h = S->obs_hash;
+      int oc = S->outcome, nv = S->nviol;
+      S->force_real_exec = 1;
+      run_one(cfg, NULL, 0, 0);
+      S->force_real_exec = 0;
+      st_real_validated++;
+      if (S->obs_hash != h || S->outcome != oc || S->nviol != nv) {
+        st_real_mismatch++;
+        fprintf(hx_err(), "[hx %s] emulated/real exec disagree cfg=%ld (obs %llx vs %llx, outcome %d vs %d)\n", H->prop, cfg, (unsigned long long) h,
+                (unsigned long long) S->obs_hash, oc, S->outcome);
+      }
+    }
     if (want_sample) {
       /* run the same choice sequence again with logging on, to have something readable in the evidence */
       uint8_t full[VK_MAX_TRACE];
@@ -441,9 +457,9 @@ static void write_stats(const char *path, long ncfg, long first, long step, doub
           H->prop, H->name, hx_tier ? "thorough" : "quick", hx_worker_id, ncfg, first, step);
   fprintf(f, "\"configs_done\":%ld,\"capped_configs\":%ld,\"executions\":%ld,\"choice_points\":%ld,\"max_trace\":%d,"
              "\"distinct_observations\":%ld,\"infra_errors\":%ld,\"crashes\":%ld,\"replay_checked\":%ld,\"replay_mismatch\":%ld,"
-             "\"trace_overflow\":%ld,\"viol_overflow\":%ld,\"wall_s\":%.3f,\"bfs_states\":%ld,\"bfs_max_depth\":%ld,\"deadline_hit\":%s,",
+             "\"real_exec_validated\":%ld,\"real_exec_mismatch\":%ld,\"trace_overflow\":%ld,\"viol_overflow\":%ld,\"wall_s\":%.3f,\"bfs_states\":%ld,\"bfs_max_depth\":%ld,\"deadline_hit\":%s,",
           st_configs_done, st_capped_configs, st_exec, st_points, st_max_trace, obs_distinct, st_infra, st_crash,
-          st_replay_checked, st_replay_mismatch, st_trace_overflow, viol_overflow, wall, st_bfs_states, st_bfs_max_depth,
+          st_replay_checked, st_replay_mismatch, st_real_validated, st_real_mismatch, st_trace_overflow, viol_overflow, wall, st_bfs_states, st_bfs_max_depth,
           (t_deadline > 0 && nowsec() > t_deadline) ? "true" : "false");
   fprintf(f, "\"outcomes\":{\"done\":%ld,\"hang\":%ld,\"infra\":%ld,\"crash\":%ld},", st_outcome[OUT_DONE], st_outcome[OUT_HANG],
           st_outcome[OUT_INFRA], st_outcome[OUT_CRASH]);
